@@ -25,6 +25,12 @@ def cq(fr):
     return f"(Qmake {n}%Z {fr.denominator}%positive)"
 
 
+def qshow(fr):
+    """how Coq prints a Q value built with Qmake"""
+    fr = Fraction(fr)
+    return f"{fr.numerator} # {fr.denominator}"
+
+
 def cqlist(xs):
     return "[" + "; ".join(cq(x) for x in xs) + "]"
 
@@ -266,6 +272,25 @@ def oracle_space(ctx, o):
             ctx.violation("S5", f"{name}: the grid centre or the point counts are not preserved between frequency and sum/difference axes", sig("space_sd_centre"),
                           {"conversion": name, "frequency": fs, "sumdiff": sd})
     if o["from"] == "wavelength":
+        # the From impls must be the named conversions, bit for bit
+        for key, ref, what in (("fs_from_ws", o["fs"], "FrequencySpace::from(WavelengthSpace)"), ("fs_from_sd", o["fs2"], "FrequencySpace::from(SumDiffFrequencySpace)"),
+                               ("sd_from_ws", o["sd_from_ws"], "SumDiffFrequencySpace::from(WavelengthSpace)"), ("sd_from_fs", o["sd"], "SumDiffFrequencySpace::from(FrequencySpace)"),
+                               ("ws_from_fs", o["ws2"], "WavelengthSpace::from(FrequencySpace)"), ("ws_from_sd", o["ws_from_sd"], "WavelengthSpace::from(SumDiffFrequencySpace)"),
+                               ("ws_from_steps", o["ws"], "WavelengthSpace::from(Steps2D)")):
+            if o["into"][key] != ref:
+                ctx.violation("S5", f"{what} (`.into()`) differs from the named conversion: {o['into'][key]} vs {ref}", {"kind": "space_from_impl", "which": key},
+                              {"conversion": what, "source_wavelength_space": o["ws"], "into": o["into"][key], "named": ref})
+        # orientation: the conversion swaps the endpoints of each axis; ascending stays ascending, descending stays descending
+        for i in (0, 1):
+            lo, hi, _ = axis_vals(o["ws"][i])
+            dlo, dhi, _ = axis_vals(o["fs"][i])
+            if 0 < hi < lo:
+                ctx.count("space:descending_axis:" + ("stays_descending" if dhi < dlo else "becomes_ascending"))
+                if not (0 < dhi < dlo):
+                    ctx.violation("S5", "a descending wavelength axis does not keep its orientation in frequency (the code swaps endpoints; proved: C14_wavelength_frequency_descending)",
+                                  sig("space_orientation"), {"source": o["ws"], "result": o["fs"]})
+            elif 0 < lo < hi:
+                ctx.count("space:ascending_axis:" + ("stays_ascending" if dlo < dhi else "becomes_descending"))
         check_wf(o["ws"], o["fs"], "WavelengthSpace::as_frequency_space")
         check_wf(o["fs"], o["ws2"], "FrequencySpace::as_wavelength_space")
         if not same_space(o["ws"], o["ws2"]):
@@ -317,6 +342,26 @@ def oracle_space(ctx, o):
             if not (close(H(a), ex[0], TOL_CONV, sc) and close(H(b), ex[1], TOL_CONV, sc)):
                 ctx.violation("S5", f"{rep} space: pair {k} is ({f64_of_hex(a)!r}, {f64_of_hex(b)!r}), expected the image of grid point (column {i}, row {j}) = ({float(ex[0])!r}, {float(ex[1])!r})",
                               sig("space_si_points"), {"rep": rep, "space": o[key], "index": k, "got": [a, b]})
+                break
+
+
+def oracle_array(ctx, o):
+    """flat (signal, idler) arrays: consecutive pairs, a trailing odd element dropped; the parallel iterator delivers the same pairs in the same order"""
+    n = o["len"]
+    ctx.seen(("array_iter", n, o["freq_list"][0] if o["freq_list"] else ""))
+    ctx.count("array_iter:" + ("odd" if n % 2 else "even"))
+    exp_f = [x for k in range(n // 2) for x in (o["freq_list"][2 * k], o["freq_list"][2 * k + 1])]
+    if o["freq_seq"] != exp_f:
+        ctx.violation("S5", f"SignalIdlerFrequencyArray of {n} values iterates over {pairs(o['freq_seq'])[:3]}… instead of the consecutive (signal, idler) pairs", {"kind": "array_pairs", "which": "frequency"}, o)
+    if o["freq_par"] != o["freq_seq"] or o["wl_par"] != o["wl_seq"]:
+        ctx.violation("S5", f"the parallel iterator of a flat (signal, idler) array of {n} values differs from its sequential iterator", {"kind": "array_par_vs_seq"}, o)
+    if len(o["wl_seq"]) != 2 * (n // 2):
+        ctx.violation("S5", f"SignalIdlerWavelengthArray of {n} values iterates over {len(o['wl_seq']) // 2} pairs", {"kind": "array_pairs", "which": "wavelength"}, o)
+    else:
+        for k, x in enumerate(o["wl_seq"]):
+            ex = w_of(H(o["wl_list"][k]))
+            if not close(H(x), ex, TOL_CONV, ex):
+                ctx.violation("S5", f"SignalIdlerWavelengthArray: element {k} is {f64_of_hex(x)!r}, expected 2 pi c / lambda = {float(ex)!r}", {"kind": "array_pairs", "which": "wavelength"}, o)
                 break
 
 
@@ -399,6 +444,11 @@ def oracle(ctx, obs):
             ctx.note("get_1d_index(3,0,3) did not panic: the col < cols assertion is gone")
         elif k == "space":
             oracle_space(ctx, o)
+        elif k == "array_iter":
+            oracle_array(ctx, o)
+        elif k == "steps_overflow" and not o["finite"]:
+            ctx.note(f"outside the stated guard: {o['call']} = {f64_of_hex(o['value'])!r} — start * (d - i) overflows binary64 when |endpoint| * (n - 1) exceeds f64::MAX; "
+                     "the value clauses (theorem C14_steps_value_float_partial, manifest) are claimed only below that magnitude")
         elif k == "range":
             oracle_range(ctx, o)
         elif k == "range_all":
@@ -445,6 +495,9 @@ def correspondence(ctx, obs, quick):
             add("idx1", o, "(" + f"flat_map (fun c => map (fun r => get_1d_index c r {cols}) (seq 0 12)) (seq 0 {cols})" + ")")
         elif k == "transpose":
             add("tr", o, f"transpose_vec (seq 0 {o['rows'] * o['cols']}) {o['cols']}")
+        elif k == "array_iter":
+            lst = "[" + "; ".join(cq(H(x)) for x in o["freq_list"]) + "]"
+            add("arr", o, f"bad_idx (ok2 {cq(0)} {cq(1)} {cq(1)}) (map (fun p => farr_point (fst p) (snd p)) (array_pairs farr_chunk {lst})) {cqpairs((H(a), H(b)) for a, b in pairs(o['freq_seq']))} 0%nat")
         elif k == "transpose_ragged":
             add("tr", o, f"transpose_vec (seq 0 {o['len']}) {o['cols']}")
         elif k == "space" and nsp < (12 if quick else 120):
@@ -464,6 +517,10 @@ def correspondence(ctx, obs, quick):
                 ("canary2", f"check_seq2d {cq(0)} {cq(1)} 2 {cq(0)} {cq(2)} 3 {cqpairs([(0, 0), (0, 1), (0, 2), (1, 0), (1, 1), (1, 2)])} {cq(TOL_MODEL)}", None),
                 ("canary3", "transpose_vec (seq 0 7) 3", "Ok [0; 3; 1; 4; 2; 5]")]
     res = run_compute_cases(ctx, "C14", IMPORTS, "", exprs + [(c[0], c[1]) for c in canaries])
+    missing = [(c, e) for c, e in exprs + [(c[0], c[1]) for c in canaries] if c not in res]
+    if missing:    # a shard that died (time-out under load): evaluate its cases once more before calling anything a disagreement
+        ctx.log(f"   {len(missing)} evaluations without a result: retried")
+        res.update(run_compute_cases(ctx, "C14retry", IMPORTS, "", missing, shards=min(NCPU, max(1, len(missing) // 4))))
     for cid, _, expect in canaries:
         got = (res.get(cid) or "").replace("%nat", "")
         if (expect is not None and got.replace(" ", "") != expect.replace(" ", "")) or (expect is None and got in ("", "[]")):
@@ -479,6 +536,8 @@ def correspondence(ctx, obs, quick):
             good = got == "[]"
         elif kind in ("tosd", "ofsd"):
             good = got == "true"
+        elif kind == "arr":
+            good = got == "[]"
         elif kind == "idx2":
             exp = "[" + "; ".join(f"({c}, {r})" for _, c, r in o["to2d"]) + "]"
             good = got.replace(" ", "") == exp.replace(" ", "")
@@ -601,6 +660,14 @@ def run(ctx):
         # a second, independent stream (only the randomised observation kinds add information)
         obs += [o for o in run_harness(ctx, binp, ["c14", ctx.seed + 7919, n, "grid"]) if o["kind"] in ("steps", "steps2d", "space", "transpose_f")]
     obs += run_harness(ctx, binp, ["c14", ctx.seed, 2 if quick else 12, "range"], timeout=900)
+    if not quick:
+        # debug profile (overflow checks on, as `cargo test` builds): usize arithmetic of divisions(), index maps, transpose must not trip on any generated case
+        try:
+            bind = build_harness(ctx, profile="debug")
+            dobs = run_harness(ctx, bind, ["c14", ctx.seed + 31, 1, "grid"], timeout=1800)
+            oracle(ctx, dobs)
+        except CheckError as e:
+            ctx.note("debug-profile harness could not be built: " + str(e)[:200])
     bad_nonsquare = oracle(ctx, obs)
     for o in obs:
         if o["kind"] == "steps" and o["n"] >= 3:
@@ -628,10 +695,14 @@ def run(ctx):
         "1-D/2-D from either end, any interleaving": "proved (any carrier, generated next/next_back)",
         "2-D: nx*ny points, first axis fastest": "proved (any carrier: exact)",
         "index maps mutually inverse": "proved",
-        "range evaluators = pointwise, in grid order": "proved for the generated call table (every *_range maps its point function over the range's points, argument order pinned) "
-                                                       "+ C15_collect for the parallel collect; JointSpectrum point functions themselves validated bit-exact Rust-vs-Rust",
-        "flat (signal, idler) list = grid": "proved for the pairing model (chunk2/flatten2) + validated bit-exact",
-        "wavelength <-> frequency endpoints, ascending, round trip": "proved (reals) + interval correspondence 1e-14",
+        "range evaluators = pointwise, in grid order": "pinned + validated: the generated call table (every *_range = map of its point function, argument order) is checked by "
+                                                       "vm_compute against the expected table, the parallel collect is C15_collect / C15_par_sites_sound; all eight range functions "
+                                                       "validated bit-exact Rust-vs-Rust against point-by-point evaluation",
+        "flat (signal, idler) list = grid": "proved for the pairing model, which is tied to the GENERATED description of SignalIdler*Array (chunks_exact(2), (a[0], a[1]), point maps, "
+                                            "sequential = parallel) by C14_flat_list_generated; sequential/parallel array iterators incl. odd lengths validated and compared with the model",
+        "wavelength <-> frequency endpoints, round trip": "proved (reals) + interval correspondence 1e-14; From impls proved to be the named conversions",
+        "'each axis re-sorted ascending'": "READING: the code swaps the endpoints (no sort): ascending stays ascending and descending stays descending (both proved, both observed); "
+                                           "sorting would be incompatible with the round-trip clause on a descending axis",
         "frequency <-> sum/diff centre, counts, round trip iff equal spans": "proved (iff, both directions, plus idempotence)",
         "transpose of any shape": "proved (all rows x cols incl. 0; generated early return / ranges / read index of the out-of-place loop); ragged lengths and num_cols = 0 characterised; "
                                   "every shape up to 12x12 observed and compared with the model",
